@@ -842,6 +842,8 @@ func check(t *testing.T, run *vk.Run) {
 					continue
 				}
 				if run.Expired() {
+					lab.Close() // leave the bubble without blocked engine goroutines
+					synctest.Wait()
 					return
 				}
 				q := op.String()
@@ -889,6 +891,8 @@ func check(t *testing.T, run *vk.Run) {
 					continue
 				}
 				if run.Expired() {
+					labT.Close()
+					synctest.Wait()
 					return
 				}
 				q := op.String()
